@@ -484,7 +484,7 @@ def sdss_specobjid(plate, fiber, mjd, run2d, line=None, index=None):
     if isinstance(mjd, int):
         mjd = np.array([mjd]) - 50000
     else:
-        mjd = np.asarray(mjd) - 50000
+        mjd = np.asarray(mjd).astype(np.int64) - 50000
     if isinstance(run2d, str):
         try:
             run2d = np.array([int(run2d)])
